@@ -469,8 +469,8 @@ def jobs(tier):
 
 
 def all_jobs(tier):
-    from . import extra_misc
-    return jobs(tier) + extra_misc.jobs_for('C03', tier)
+    from . import extra_misc, mnode
+    return jobs(tier) + extra_misc.jobs_for('C03', tier) + mnode.jobs_for('C03', tier)
 
 
 def main(report, tier):
